@@ -389,6 +389,9 @@ class Gen:
                     if isinstance(value[kk], (str, int)) and not any(isinstance(e[0], tuple) for e in entries):
                         key = ('tkey', ('t', [('[', kk)]))
                 entries.append((key, self.spec(value, depth - 1, 'D')))
+            if self.skipstop and rng.random() < 0.1:
+                # an omitted entry (value SKIP) whose computed key could not even be evaluated: still just omitted
+                entries.insert(rng.randint(0, len(entries)), (('tkey', ('t', [('[', 'zz_no_such_key')])), ('fn', self.fn('skip'))))
             return ('dict', entries, typ)
         if c == 'list':
             elem = value[0] if value else 0
